@@ -465,6 +465,50 @@ func runDirected1(d Directed, v *vt.V) {
 		if v.Failed() {
 			return
 		}
+	case "same-offset-race":
+		// several handles opened at the same (right) offset write at once: exactly one write is
+		// accepted, the others are refused as range-invalid, and the session holds one chunk
+		mem := ocimem.New()
+		const writers = 4
+		x := bytes.Repeat([]byte("x"), max(d.Size, 1))
+		for i := 0; i < d.Iters; i++ {
+			w0, err := mem.PushBlobChunked(ctx, "foo", 0)
+			if err != nil {
+				v.Failf("harness", "%v", err)
+				return
+			}
+			id := w0.ID()
+			var wg sync.WaitGroup
+			var accepted, refused, other atomic.Int64
+			start := make(chan struct{})
+			for g := 0; g < writers; g++ {
+				wg.Add(1)
+				go func() {
+					defer wg.Done()
+					w, err := mem.PushBlobChunkedResume(ctx, "foo", id, 0, 0)
+					if err != nil {
+						other.Add(1)
+						return
+					}
+					<-start
+					switch _, err := w.Write(x); {
+					case err == nil:
+						accepted.Add(1)
+					case errors.Is(err, ociregistry.ErrRangeInvalid):
+						refused.Add(1)
+					default:
+						other.Add(1)
+					}
+				}()
+			}
+			close(start)
+			wg.Wait()
+			if accepted.Load() != 1 || refused.Load() != writers-1 || w0.Size() != int64(len(x)) {
+				v.Failf("same-offset-writes-accepted", "%s, iteration %d: %d handles opened at offset 0 of an empty session wrote %d bytes each at once: %d accepted, %d refused as range-invalid, %d other errors; the session holds %d bytes (want 1 accepted, %d refused, %d bytes)", d.Family, i, writers, len(x), accepted.Load(), refused.Load(), other.Load(), w0.Size(), writers-1, len(x))
+				return
+			}
+			w0.Cancel()
+		}
 	case "first-resume-race":
 		// several goroutines open the same, not yet existing, upload id at once (ocimem starts such a
 		// session on demand) and write one byte each: every acknowledged byte belongs to the one session
@@ -592,7 +636,7 @@ func init() {
 	propDirected = &vt.Prop[Directed]{
 		ID:   "C08",
 		Name: "DirectedRaces",
-		Rule: "directed workload families aimed at the registry's two-step operations, each a loop of racing goroutines under -race: tag-flip (a tag moved back and forth between two manifests, the old one deleted each time, while 4 readers GetTag: never missing, never foreign bytes), commit-vs-write / resume-vs-write (one goroutine commits digest(X) while another writes to the same session: a successful commit stores exactly X with the right size, a failed one stores nothing), commit-vs-cancel / commit-vs-wrong-commit / commit-vs-write-commit (every commit that reports success leaves exactly its content retrievable under its digest; nothing is ever stored under the empty digest), stale-write-vs-status / good-write-vs-wrong-offset (a handle opened at a stale offset is refused, one opened at the right offset is accepted, whatever offsets other handles on the same session are opened at meanwhile), first-resume-race (goroutines opening the same fresh upload id at once share one session: no acknowledged write is lost), interleaved-chunks (over HTTP: a chunk request is served while another one's body is half delivered - the requests must take effect one after the other); distinct = (family, iterations, size)",
+		Rule: "directed workload families aimed at the registry's two-step operations, each a loop of racing goroutines under -race: tag-flip (a tag moved back and forth between two manifests, the old one deleted each time, while 4 readers GetTag: never missing, never foreign bytes), commit-vs-write / resume-vs-write (one goroutine commits digest(X) while another writes to the same session: a successful commit stores exactly X with the right size, a failed one stores nothing), commit-vs-cancel / commit-vs-wrong-commit / commit-vs-write-commit (every commit that reports success leaves exactly its content retrievable under its digest; nothing is ever stored under the empty digest), stale-write-vs-status / good-write-vs-wrong-offset (a handle opened at a stale offset is refused, one opened at the right offset is accepted, whatever offsets other handles on the same session are opened at meanwhile), first-resume-race (goroutines opening the same fresh upload id at once share one session: no acknowledged write is lost), same-offset-race (of several handles opened at the same offset and writing at once exactly one is accepted), interleaved-chunks (over HTTP: a chunk request is served while another one's body is half delivered - the requests must take effect one after the other); distinct = (family, iterations, size)",
 		Run:  runDirected,
 	}
 }
@@ -606,9 +650,9 @@ func TestPropDirected(t *testing.T) {
 	vt.Enumerate(t, propDirected, false, func(yield func(Directed) bool) {
 		k := 0
 		for rep := 0; rep < 2; rep++ {
-			for _, f := range []string{"tag-flip", "commit-vs-write", "commit-vs-cancel", "resume-vs-write", "commit-vs-wrong-commit", "commit-vs-write-commit", "stale-write-vs-status", "good-write-vs-wrong-offset", "first-resume-race", "interleaved-chunks"} {
+			for _, f := range []string{"tag-flip", "commit-vs-write", "commit-vs-cancel", "resume-vs-write", "commit-vs-wrong-commit", "commit-vs-write-commit", "stale-write-vs-status", "good-write-vs-wrong-offset", "first-resume-race", "same-offset-race", "interleaved-chunks"} {
 				for _, size := range []int{4, 4096, 1 << 20} {
-					if (f == "tag-flip" || f == "first-resume-race") && size != 4 || f == "interleaved-chunks" && size > 4096 {
+					if (f == "tag-flip" || f == "first-resume-race") && size != 4 || (f == "interleaved-chunks" || f == "same-offset-race") && size > 4096 {
 						continue
 					}
 					k++
@@ -619,7 +663,7 @@ func TestPropDirected(t *testing.T) {
 					if size == 1<<20 {
 						n = iters / 10
 					}
-					if f == "tag-flip" || f == "first-resume-race" {
+					if f == "tag-flip" || f == "first-resume-race" || f == "same-offset-race" {
 						n = iters * 20
 					}
 					if !yield(Directed{Family: f, Iters: n, Size: size}) {
